@@ -17,6 +17,7 @@ import ProfiVerif.Lemmas.ListenLearn
 import ProfiVerif.Lemmas.ListenNet
 import ProfiVerif.Lemmas.ColdStartDuo
 import ProfiVerif.Lemmas.ColdStartReply
+import ProfiVerif.Lemmas.ColdStartChain
 
 namespace PV.C06
 open PV
@@ -1185,5 +1186,47 @@ example : RplRun cfgR 0 1 3 5 1630 netQ evsRp :=
   gap_request_answered_not_ready cfgR cfgR_ok 1000 (by decide) 0 1 1000 (TokenRing.new 5) [] 3 5 (by decide) evsRp netQ nsQ3 nsQ5
     0 1150 (.inr (.inl ⟨1150, hq1Q, by decide⟩)) rfl rfl rfl
     (schedN_of_times _ _ _ _ (schedNT_of_b 100 2 evsRp [1140, 1150] 1150 (by decide)))
+
+/-! ## Cold start of two stations up to the first answered GAP request (one theorem) -/
+
+/-- A fresh ring view (LAS uninitialised) is not ready before the third witnessed token of the lone holder. -/
+theorem fresh_listener_not_ready (aL : Nat) (haL : aL ≤ 125) (r : TokenRing) (hr : r.las = .uninitialized) (k : Nat)
+    (hk : k ≤ 2) : (witnessK aL k r).readyForRing = false :=
+  witnessK_notReady aL haL r hr k hk
+
+/-- **Cold start of two stations from silence to the first answered GAP poll** (C02 "the ring forms", phases
+(a1)–(a3) and the first request/reply handshake of (b), chained).  Hypotheses as in
+`two_station_cold_start_until_polled` (two station models on the byte-accurate bus, both online in `ListenToken`
+on a bus on which nothing has been transmitted, `CS2` — which now also states that the listener runs at the
+configured rate and that the claimant's pending-byte counter is 0 —, stagger
+`lx + Tto_x + P + ⌈11 bit⌉ < ly + Tto_y`, both polled at least every `P`, `Tslot + 3P ≤ G`,
+`G + ⌈11 bit⌉ + 2 ≤ Tto_y`, `P ≤ 100 ms`), plus: the listener's LAS is uninitialised (a fresh station).  Then
+(`TwoRun2`, `DuoRun2`, `RplRun`): every poll returns regularly; nobody transmits before `T = lx + Tto_x`; `x` claims
+at its first poll at or after `T` (≤ `T + P`); the listener never transmits while `x` sends its second token and the
+GAP requests to third addresses (each poll of `x` within `formTime` of the claim); when `x` sends the GAP request to
+the listener's address (at `r`), the listener — which has heard at most two tokens and is therefore NOT ready
+(`fresh_listener_not_ready`) — registers it, waits 33 bit and answers "not ready" in exactly one poll; `x` never
+runs into its slot time-out, receives the reply in whatever pieces it arrives no later than
+`r + 2·⌈66 bit⌉ + bits 33 + 3P`, does not admit the listener and goes on with its GAP scan, both stations up to date
+with the log (`HQ3`).  What follows — the rest of the sweep, the rotations of `x` alone, the "ready" reply and the
+admission — is not proved. -/
+theorem two_station_cold_start_first_poll_answered (cfg : Cfg) (hok : cfg.Ok) (hP100 : cfg.P ≤ 100000) (G : Nat)
+    (hG : cfg.slot + 3 * cfg.P ≤ G) (x y : Nat) (stx sty : NetStation) (lx ly : Int)
+    (hGy : G + cfg.ce 0 + 2 ≤ sty.s.p.tokenLostTimeout) (hne : stx.s.p.address ≠ sty.s.p.address)
+    (hsync : cfg.b33 < stx.s.p.tokenLostTimeout) (hr0 : sty.s.ring.las = .uninitialized)
+    (hv : RingView [stx.s.p.address] stx.s.p.address stx.s.ring.claimToken)
+    (hstag : lx + (stx.s.p.tokenLostTimeout : Nat) + (cfg.P : Nat) + ((cfg.ce 0 : Nat) : Int) < ly + (sty.s.p.tokenLostTimeout : Nat))
+    (evs : List (Nat × Int)) (n : Net) (tl : Int) (h : CS2 cfg n x y stx sty lx ly) (hN : n.stations.length = 2)
+    (hsx : n.bus.seen.getD x 0 < lx + (stx.s.p.tokenLostTimeout : Nat)) (hsy : n.bus.seen.getD y 0 ≤ tl)
+    (hs : SchedN cfg.P n tl evs) :
+    TwoRun2 cfg x y stx.s.p.address sty.s.p.address (lx + (stx.s.p.tokenLostTimeout : Nat))
+      (lx + (stx.s.p.tokenLostTimeout : Nat) + (cfg.P : Nat)) (cfg.formTime stx.s.p.hsa) n evs :=
+  two_cold_start2 hok hP100 G hG x y stx sty lx ly hGy hne hsync hr0 hv hstag evs n tl h hN hsx hsy hs
+
+open PV.C13 in
+example : TwoRun2 cfgR 0 1 3 5 4800 4900 (cfgR.formTime 10) netL evsT :=
+  two_station_cold_start_first_poll_answered cfgR cfgR_ok (by decide) 1000 (by decide) 0 1 { s := sL3, apps := [], online := true }
+    { s := sL5, apps := [], online := true } 0 50 (by decide) (by decide) (by decide) rfl viewOne (by decide) evsT netL 50 cs2L rfl
+    (by decide) (by decide) (schedN_of_times _ _ _ _ (schedNT_of_b 100 2 evsT [0, 50] 50 (by decide)))
 
 end PV.C06
